@@ -137,6 +137,15 @@ fn carrier_specs(thorough: bool) -> Vec<UniSpec> {
     regex: vec![],
     fields: vec!["arguments".into(), "function".into()],
   });
+  v.push(UniSpec {
+    full: true,
+    lang: l,
+    sources: vec!["123 + 4; x = 123 + z * 2;".into(), "foo(123 + 1, 5 + 123)".into()],
+    patterns: vec!["123+".into(), "$A +".into(), "123 + $B".into(), "foo(".into()],
+    kinds: vec!["binary_expression".into(), "number".into(), "expression_statement".into()],
+    regex: vec![vec!["123".into()]],
+    fields: vec!["left".into(), "right".into()],
+  });
   if thorough {
     v.push(UniSpec {
       full: true,
@@ -262,7 +271,9 @@ fn build_universe(spec: &UniSpec) -> Option<Value> {
   let mut compiled = vec![];
   for t in &spec.patterns {
     let Ok(Ok(p)) = catch_unwind(AssertUnwindSafe(|| Pattern::try_new(t, l))) else { continue };
-    if p.has_error() {
+    // patterns that parse with an ERROR node are kept in the carrier universes only: their kind set must be
+    // "every kind" (an ERROR root matches nodes of any kind)
+    if p.has_error() && !spec.full {
       continue;
     }
     pats.push(json!({"text": t, "PT": mrec::pattern_table(&p.node), "strict": "smart"}));
